@@ -317,6 +317,183 @@ def translated_vs_python(run: lib.Run, n: int) -> tuple[bool, str]:
     return bad == 0, f"{bad} of {len(calls)} calls differ" if bad else "agree"
 
 
+def env_of(req: dict, cfg: dict | None = None) -> dict:
+    env = {"subject": {"id": req["sid"], "roles": list(req["roles"] or []), "attrs": dict(req["sattrs"] or {})},
+           "action": req["action"],
+           "resource": {"type": req["rtype"], "id": req["rid"], "attrs": dict(req["rattrs"] or {})},
+           "context": dict(req.get("ctx") or {})}
+    if cfg and cfg.get("strict"):
+        env["__strict_types__"] = True
+    return env
+
+
+INDEX_ACTIONS = [["read"], ["*"], ["read", "read"], ["read", "*"], ["*", "read"], ["*", "read", "*", "read"], ["write", "read"], ["write"], [],
+                 "read", ["read", 1, None], {"read": 1}, None, 5, ["*", "*"]]
+
+
+def index_cases():
+    """what the action index, the `seen` set and the sort back into document order are there for: rules that list the request's action
+    twice, the action and '*', '*' twice, in every order next to rules of the other kind; equal rules at several positions (two equal
+    values are two objects); under first-applicable (document order decides) and the overriding algorithms"""
+    env = env_of(REQS[0])
+    tgts = [{"type": "doc"}, {"type": "doc", "id": "1"}, {"type": "*"}, {"type": "doc", "id": "2"}]
+    k = 0
+    for a1, a2 in itertools.product(INDEX_ACTIONS[:9], repeat=2):
+        for e1, e2 in (("permit", "deny"), ("deny", "permit")):
+            for t1, t2 in ((0, 0), (0, 1), (2, 0), (1, 3), (2, 2)):
+                k += 1
+                rules = [{"id": "a", "effect": e1, "actions": a1, "resource": dict(tgts[t1])}, {"id": "b", "effect": e2, "actions": a2, "resource": dict(tgts[t2])}]
+                yield {"algorithm": gen.ALGOS[k % 3], "rules": rules}, env, "index|pair"
+    for acts in INDEX_ACTIONS:
+        for algo in gen.ALGOS:
+            r1 = {"id": "x", "effect": "permit", "actions": acts, "resource": {"type": "doc"}}
+            r2 = {"id": "y", "effect": "deny", "actions": ["*"], "resource": {"type": "doc"}}
+            yield {"algorithm": algo, "rules": [r1, r2, dict(r1), dict(r2), r1]}, env, "index|equal rules at several positions"
+            yield {"algorithm": algo, "rules": [r2, r1]}, env, "index|star first"
+    for algo in [None, "", "Permit-Overrides", "FIRST-APPLICABLE", 5, ["x"], "no-such"]:
+        for rules in ([], [{"id": "p", "effect": "permit", "actions": ["read"], "resource": {"type": "doc"}},
+                           {"id": "d", "effect": "deny", "actions": ["*"], "resource": {"type": "doc"}}]):
+            pol = {"rules": rules} if algo is None else {"algorithm": algo, "rules": rules}
+            yield pol, env, "index|algorithm absent / not canonical / not a string"
+    for action in (None, 1, 1.5, True, "", "*", ["read"]):
+        for rt in (None, 1, 2.5, "doc", "", ["doc"]):
+            e = {**env, "action": action, "resource": {"type": rt, "id": "1", "attrs": {}}}
+            for t in ("doc", "1", "2.5", "*", ["1", "doc"], None):
+                rules = [{"id": "n", "effect": "permit", "actions": ["read", "1", "1.5", "True", "None"], "resource": {"type": t}},
+                         {"id": "s", "effect": "deny", "actions": ["*"], "resource": {"type": t, "id": "1"}}]
+                yield {"algorithm": "first-applicable", "rules": rules}, e, "index|stringified action / type"
+
+
+def in_domain(pol, env) -> bool:
+    """the shapes on which the translation's callees (`Src.actions`, `Src.categorize`, `Src.match_resource`: total translations, `.get` on
+    a non-dict answers None) speak about CPython: the items of `rules` and their `resource` are dicts (or falsy), `env["resource"]` too"""
+    if not isinstance(pol, dict) or "policies" in pol:
+        return True
+    rules = pol.get("rules") or []
+    if isinstance(rules, (str, dict)):
+        return False
+    if isinstance(rules, (list, tuple)):
+        for ru in rules:
+            if not isinstance(ru, dict) or not isinstance(ru.get("resource") or {}, dict):
+                return False
+    return not isinstance(env, dict) or isinstance(env.get("resource") or {}, dict)
+
+
+def whole_cases(run: lib.Run):
+    """(policy, env, label) for the comparison of the compiler translated whole with the real `compile(policy)(env)`"""
+    from props import c02
+    quick = run.tier == "quick"
+    step = 9 if quick else 2
+    for k, (pol, req, cfg) in enumerate(enum_cases(quick)):
+        if k % step == 0:
+            yield pol, env_of(req, cfg), "enumerated"
+    yield from index_cases()
+    for pol in c02.MALFORMED_POLICIES:
+        for env in c02.ENVS_WHOLE:
+            yield pol, env, "malformed-policy"
+    for pol in c02.MALFORMED_SETS:
+        for env in c02.ENVS_WHOLE[:3]:
+            yield pol, env, "malformed-set"
+    for doc in (5, "x", None, [1], True, 1.5, "policies", ["policies"]):
+        yield doc, c02.ENV, "non-dict-policy"
+    for env in (None, 5, "x", [1]):
+        yield {"algorithm": "deny-overrides", "rules": [c02.template("permit", 0)]}, env, "non-dict-env"
+        yield {"rules": []}, env, "non-dict-env|no rules"
+        yield {"policies": [{"id": "p", "rules": [c02.template("permit", 0)]}]}, env, "non-dict-env|set"
+    n = (500 if quick else 5000) * run.boost
+    for k, (pol, req, cfg) in enumerate(gc.random_cases(run.seed * 7 + 3, n, sets=0.2, algo="explicit", hostile=0.05)):
+        yield pol, env_of(req, cfg), f"random#{k}"
+    r = random.Random(run.seed * 911 + 4)
+    for k in range((150 if quick else 1500) * run.boost):
+        pol = gen.gen_policy(r, r.random() < 0.2, False, algo="any")
+        req = gen.gen_request(r, pol, r.random() < 0.1)
+        for ru in pol.get("rules") or []:
+            if isinstance(ru, dict) and r.random() < 0.4:
+                ru["actions"] = gen.choice(r, INDEX_ACTIONS[:9]) + ([req["action"]] if isinstance(req["action"], str) and r.random() < 0.5 else [])
+        yield pol, env_of(req, {"strict": r.random() < 0.3}), f"random-index#{k}"
+
+
+def translated_whole_vs_python(run: lib.Run) -> tuple[bool, str]:
+    """THE COMPILER TRANSLATED WHOLE (`Generated.Src.compile_decide` = `compile(policy)(env)`: the function and the closure it returns,
+    evaluated by `lake env lean --run Rbacx/Run/SrcEvalCompile.lean` with the budget the obligation C03_whole proves sufficient) against
+    the REAL `rbacx.core.compiler.compile(policy)(env)` on the same arguments: the returned dict, key order included, or WHICH exception
+    — on a slice of the enumerated cases of this check, on policies built to exercise the action index / the `seen` set / the sort
+    (an action listed twice, with '*', equal rules at several positions), on malformed documents and on random policies / sets.
+    The externals of the translated `eval_condition` get their values from the real Python per input line, as in props/c02.py.
+    Not judged (counted): a Python AttributeError on a document with an item of `rules` / a `resource` that is not a dict — the callees
+    are the total translations of C03_translated / C05_translated (`in_domain`).  Validates harness/pytolean_closure.py and
+    Model/PyIdent.lean (closure inlining, identity = position, in-place operations, the stable sort) — what C03_whole trusts."""
+    import builtins
+    import copy
+    import json
+    import subprocess
+    from rbacx.core import compiler as rcompiler, policy as rpolicy
+    from props import c04
+    rec = c04._ExtRecorder()
+    real_parse = rpolicy._parse_dt
+
+    def rec_getattr(obj, name, *default):
+        return rec.note("getattr", [obj, name, *default], lambda: builtins.getattr(obj, name, *default))
+
+    def rec_parse(x, strict=None):
+        return rec.note("_parse_dt", [x, strict], lambda: real_parse(x, strict=strict))
+
+    calls, skipped, outside = [], 0, 0
+    rpolicy.getattr = rec_getattr
+    rpolicy._parse_dt = rec_parse
+    try:
+        for pol, env, label in whole_cases(run):
+            rec.rows, rec.bad = {"getattr": {}, "_parse_dt": {}}, False
+            want = c04._outcome(lambda: rcompiler.compile(copy.deepcopy(pol))(copy.deepcopy(env)))
+            if want == {"err": "raised:AttributeError"} and not in_domain(pol, env):
+                outside += 1
+                continue
+            subs: list = []
+            c04._rel_subconds(pol, subs)
+            relrows: dict = {}
+            try:
+                for sc in subs:
+                    key = [proto.enc(sc), proto.enc(env)]
+                    relrows.setdefault(json.dumps(key[0]), [key, c04._outcome(lambda: rpolicy.eval_condition(copy.deepcopy(sc), copy.deepcopy(env)))])
+                eargs = [proto.enc(pol), proto.enc(env)]
+            except TypeError:
+                skipped += 1
+                continue
+            if want is None or rec.bad or any(r_[1] is None for r_ in relrows.values()):
+                skipped += 1
+                continue
+            ext = {"getattr": list(rec.rows["getattr"].values()), "_parse_dt": list(rec.rows["_parse_dt"].values()), "rel_branch": list(relrows.values())}
+            calls.append((eargs, want, ext, label, (pol, env)))
+    finally:
+        del rpolicy.getattr
+        rpolicy._parse_dt = real_parse
+    lines = [json.dumps({"fn": "compile_decide", "args": eargs, "oracle": proto.build_oracle(*raw), "ext": ext}) for eargs, _w, ext, _l, raw in calls]
+    p = subprocess.run(["lake", "env", "lean", "--run", "Rbacx/Run/SrcEvalCompile.lean"], cwd=lib.LEAN, input="\n".join(lines) + "\n",
+                       capture_output=True, text=True, timeout=1500)
+    outs = [ln for ln in p.stdout.split("\n") if ln]
+    if p.returncode != 0 or len(outs) != len(lines):
+        return False, "SrcEvalCompile: " + (p.stderr or p.stdout)[-800:]
+    bad = 0
+    for (_eargs, want, _ext, label, raw), ln in zip(calls, outs):
+        got = json.loads(ln)
+        run.count("translated-compiler")
+        run.count("translated-compiler: " + label.split("#")[0].split("|")[0] + " -> " + (want["err"] if "err" in want else "dict"))
+        if got != want:
+            bad += 1
+            if bad == 1:
+                run.disagreements.append({"part": "translated source vs python", "function": "compile(policy)(env)", "label": label,
+                                          "policy": copy.deepcopy(raw[0]), "env": copy.deepcopy(raw[1]), "request": None, "cfg": None,
+                                          "impl": {"python": want}, "model": got,
+                                          "what": "the whole-function translation of compile + the closure it returns (Generated.Src.compile_decide) "
+                                                  "and the real compile(policy)(env) differ"})
+    run.evaluations += len(calls)
+    if skipped:
+        run.count("translated-compiler: skipped (value outside the value universe)", skipped)
+    if outside:
+        run.count("translated-compiler: not judged (AttributeError on a rule / resource that is not a dict)", outside)
+    return bad == 0, f"{bad} of {len(calls)} evaluations differ" if bad else f"agree on {len(calls)} evaluations"
+
+
 def irrelevant_rule(r: random.Random, req: dict) -> dict:
     """a rule whose action or resource target cannot match the request"""
     k = r.randrange(3)
@@ -373,6 +550,12 @@ def run_cases(run: lib.Run, audit: dict, scale: int = 1):
                                           "spec": "adding a rule whose action/target does not match changed the decision"})
 
 
+WHOLE_OBLIGATION = ("C03_whole: Generated.Src.compile_decide (the current source text of compile(policy) + the closure decide(env) it returns) vs the "
+                    "model's compiledDecide with compilerDefault := the literal of the source — set delegation and the prologue (default algorithm, "
+                    ".lower() raising) for every dict policy, three kernel-evaluated witnesses for the sort / the matched flags / the selection order; see the "
+                    "header of Run/C03_whole.lean for what is proved of the index / bucket part")
+
+
 def check(run: lib.Run, audit: dict) -> int:
     run.rule = ("exhaustive: every single rule over {4 action lists × 4 types × 3 ids × 3 attrs × 2 effects} × 3 algorithms × 3 requests; all ordered "
                 "pairs over a 1/11 (quick) / 1/5 (thorough) subsample; every sequence of ≤3 rules inside each of the four tiers over {permit,deny} × "
@@ -392,10 +575,19 @@ def check(run: lib.Run, audit: dict) -> int:
                    "discharged" if ok_tr else (str(tr.get("extraction_failed")) if isinstance(tr, dict) and "extraction_failed" in tr else detail_tr))
     ok_py, detail_py = translated_vs_python(run, 400 if run.tier == "quick" else 4000) if ok_tr else (False, "skipped: the translation obligation is not discharged")
     run.obligation("translated source evaluates like the Python functions (translator + Model/PyLib.lean vs CPython)", ok_py or not ok_tr, detail_py)
-    run_cases(run, audit, scale=run.boost * (1 if ok_tr else 2))
+    # `compile` ITSELF and the closure it returns, as they are written NOW, translated whole (plugin src_translation_compile) and proved
+    # equal to the model's `compiledDecide` (per-run obligation; it uses the theorems of the obligations about the callees)
+    wc = audit["facts"].get("translated_compile")
+    wc_failed = isinstance(wc, dict) and "extraction_failed" in wc
+    ok_wh, detail_wh = lib.run_obligation("C03_whole", deps=["C03_translated", "C05_translated", "C02_whole"])
+    run.obligation(WHOLE_OBLIGATION, ok_wh, "discharged" if ok_wh else (str(wc["extraction_failed"]) if wc_failed else detail_wh))
+    ok_wpy, detail_wpy = (False, "skipped: compile could not be translated") if wc_failed or not isinstance(wc, dict) else translated_whole_vs_python(run)
+    run.obligation("compile translated whole evaluates like the real compile(policy)(env) (pytolean_closure + Model/PyIdent.lean vs CPython)",
+                   ok_wpy or wc_failed or not isinstance(wc, dict), detail_wpy)
+    run_cases(run, audit, scale=run.boost * (1 if ok_tr and ok_wh else 2))
     overlap_check(run, (120 if run.tier == "quick" else 1500) * run.boost)
     violations = []
-    if (run.disagreements or not ok_tr) and not run.spec_failures:
+    if (run.disagreements or not ok_tr or not ok_wh) and not run.spec_failures:
         run_cases(run, audit, scale=4)
     if run.spec_failures:
         path = run.write_replay("spec", {"what": "C03 violated on the real engine", "case": run.spec_failures[0], "count": len(run.spec_failures)})
@@ -405,6 +597,14 @@ def check(run: lib.Run, audit: dict) -> int:
                                                "compiler's helper functions (or match_actions / _is_applicable) is not proved equal to the model functions "
                                                "that theorems Rbacx.categorize_eq_tier / Rbacx.C03.* are about; the widened search found no failing input",
                                                "translation": tr, "lean": detail_tr[-1500:], "first_disagreement": run.disagreements[:1]})
+        violations.append((path, False))
+    elif not ok_wh:
+        path = run.write_replay("obligation", {"what": "per-run obligation Rbacx/Run/C03_whole.lean no longer checks: the current source text of compile() and "
+                                               "the closure it returns (Generated.Src.compile_decide) is not proved equal to the model's compiledDecide, "
+                                               "which theorems Rbacx.C03.c03_compiled_eq_reference / c03_irrelevant_rule / c03_set_delegates are about; "
+                                               "the widened search found no failing input",
+                                               "translation": {k: v for k, v in wc.items() if k != "lean"} if isinstance(wc, dict) else wc,
+                                               "lean": detail_wh[-1500:], "first_disagreement": run.disagreements[:1]})
         violations.append((path, False))
     elif run.disagreements:
         path = run.write_replay("correspondence", {"what": "model Rbacx.compiledDecide/guardEval and the engine disagree on the decision; theorems Rbacx.C03.* no "
